@@ -6,7 +6,9 @@ Model: `Model/DataStore.lean` (DataStoreDirectory over an abstract file system, 
 mirrored character by character), `Model/DataStoreSqlite.lean`.  Spec: `Spec/DataStoreDict.lean`.
 The model follows the code after the repairs 5d49b05d8 (exact-name match in
 `drop_not_completed`), fce82c149 (read-only check there) and 0dec94369 (a rewritten
-not-completed record is listed once).
+not-completed record is listed once).  `cfg : Cfg` selects the code as it is (`Cfg.asIs`) or with the
+proposed repair "a read-only store creates no directory" (`Cfg.repaired`); the refinement theorems
+hold for every `cfg`.
 -/
 namespace CogentModel.C13
 open CogentModel.KV CogentModel.DataStore CogentModel.DataStoreDict
@@ -20,27 +22,44 @@ every operation is `safe` in the dictionary state it is applied to, then what th
 after the history — having read its member lists (`populate`) — is what the dictionary holds:
 completed / not-completed ids are exactly the dictionary keys, each listed once; `read()` of every
 member is the dictionary value; every not-completed member's md5 is `H` of its content; every
-completed member's md5 is `H` of its content or missing.  (A freshly re-opened store is the case
+completed member's md5 is `H` of its content, except — exactly — for the records in the ghost list
+`lostRun` (those whose write retired a live not-completed record of the same identifier: `write`
+deletes the shared md5 side file), whose md5 is missing; the log records are the dictionary's.
+(A freshly re-opened store is the case
 `ops ++ [reopen m]`, see `reopened_store_refines_dict_partial`.) -/
-theorem store_refines_dict_partial (H : D → D) (sfx : Str) (ids : List Str) (mode : Mode)
+theorem store_refines_dict_partial (cfg : Cfg) (H : D → D) (sfx : Str) (ids : List Str) (mode : Mode)
     (ops : List (Op D)) (hy : hyg sfx ids = true)
     (hs : safeHist sfx ids (Dict.empty mode) ops = true) :
-    let s := populate (run H (Dir.create mode sfx) ops)
+    let s := populate (run cfg H (Dir.create mode sfx) ops)
     let d := specRun .directory sfx (Dict.empty mode) ops
+    let lost := lostRun sfx (Dict.empty mode) [] ops
     s.cCache.Nodup ∧ (∀ n, n ∈ s.cCache ↔ n ∈ keys d.completed) ∧
     s.ncCache.Nodup ∧ (∀ n, n ∈ s.ncCache ↔ n ∈ keys d.notCompleted) ∧
     (∀ n, get s.root n = get d.completed n) ∧ (∀ n, get s.nc n = get d.notCompleted n) ∧
+    obsLogs s = d.logs ∧
     (∀ n v, get d.notCompleted n = some v → get s.md5 (md5Lookup s.sfx n) = some (H v)) ∧
     (∀ n v, get d.completed n = some v →
-      get s.md5 (md5Lookup s.sfx n) = some (H v) ∨ get s.md5 (md5Lookup s.sfx n) = none) :=
-  obs_of_sim hy (run_sim hy ops _ _ (sim_create mode) hs)
+      get s.md5 (md5Lookup s.sfx n) = if n ∈ lost then none else some (H v)) :=
+  obs_of_sim hy (run_sim hy ops _ _ _ (sim_create mode) hs)
+
+/-- **Every call returns / raises what the dictionary model says (partial).**  After any safe
+history, a safe operation `op` returns the member id the dictionary model names, raises `IOError`
+exactly when the dictionary model rejects it (read-only store; append mode and the record exists),
+and `drop_not_completed()` raises `FileNotFoundError` exactly when `not_completed/` is absent. -/
+theorem store_results_match_dict_partial (cfg : Cfg) (H : D → D) (sfx : Str) (ids : List Str) (mode : Mode)
+    (ops : List (Op D)) (op : Op D) (hy : hyg sfx ids = true)
+    (hs : safeHist sfx ids (Dict.empty mode) ops = true)
+    (ho : safe sfx ids (specRun .directory sfx (Dict.empty mode) ops) op = true) :
+    (step cfg H (run cfg H (Dir.create mode sfx) ops) op).2 =
+      expectRes sfx (specRun .directory sfx (Dict.empty mode) ops) (run cfg H (Dir.create mode sfx) ops).ncDir op :=
+  (step_sim hy (run_sim hy ops _ _ _ (sim_create mode) hs) op ho).2
 
 /- FULL STATEMENT (not proved): `store_refines_dict` — the same conclusion, with the last clause
-   strengthened to `get s.md5 … = some (H v)`, for every history and every identifier set, i.e.
+   strengthened to `get s.md5 … = some (H v)` (i.e. `lost = []`), for every history and every identifier set, i.e.
    without `hyg` and `safeHist`.  It is FALSE for the code as it is; each remaining hypothesis is
    forced by a concrete behaviour of `DataStoreDirectory`, exhibited below by a `_counter` theorem
    and replayed on the real store by the harness:
-   * the weak md5 clause and `safe (.writeNc)` "OVERWRITE mode: no completed record": the completed
+   * the `lost` exception in the md5 clause and `safe (.writeNc)` "OVERWRITE mode: no completed record": the completed
      and the not-completed record of one identifier share the md5 side file, and `write` deletes it
      when it retires the not-completed record (`md5_lost_on_retire_counter`);
    * `safe (.write)`: OVERWRITE mode silently keeps the old record (`rewrite_ignored_counter`);
@@ -49,7 +68,7 @@ theorem store_refines_dict_partial (H : D → D) (sfx : Str) (ids : List Str) (m
    * `hyg` per-identifier clauses: `str.replace(suffix, …)` / `suffix in item` act on the whole
      identifier, so identifiers that merely contain the suffix are stored under other names
      (`suffix_substring_counter`); the pairwise clauses only ask that distinct records have
-     distinct md5 side-file names.
+     distinct md5 side-file names; `safe (.writeLog)` asks the same of the log identifier.
    No longer needed since the repairs (and removed from `hyg` / `safe`): "no not-completed name is
    a suffix-match of another identifier" (5d49b05d8, `drop_matches_exact_name`), "no drop on a
    read-only store" (fce82c149, `readonly_drop_refused`), "no second not-completed write of one
@@ -79,44 +98,45 @@ example : hyg fasta [idA, idBA, idAfasta] = true ∧
 /-- the witness history (`write_nc('ba'); write_nc('a'); write('a.fasta')`): since 5d49b05d8 the store
     keeps `ba`'s record, as the dictionary does -/
 theorem drop_matches_exact_name :
-    (populate (run id (Dir.create .w fasta) witness)).ncCache = [baJson] ∧
+    (populate (run Cfg.asIs id (Dir.create .w fasta) witness)).ncCache = [baJson] ∧
     keys (specRun .directory fasta (Dict.empty .w) witness).notCompleted = [baJson] := by decide
 
 /-- `write_nc('a'); write('a')`: the completed record ends up without md5 -/
 theorem md5_lost_on_retire_counter :
-    let s := populate (run (· + 100) (Dir.create .a fasta) [.writeNc idA 1, .write idA 2])
-    s.cCache = [aFasta] ∧ get s.root aFasta = some 2 ∧ get s.md5 (md5Lookup fasta aFasta) = none := by decide
+    let s := populate (run Cfg.asIs (· + 100) (Dir.create .a fasta) [.writeNc idA 1, .write idA 2])
+    s.cCache = [aFasta] ∧ get s.root aFasta = some 2 ∧ get s.md5 (md5Lookup fasta aFasta) = none ∧
+    lostRun fasta (Dict.empty .a) [] [.writeNc idA (1 : Nat), .write idA 2] = [aFasta] := by decide
 
 /-- `write('a', 1); write('a', 2)` in OVERWRITE mode keeps `1` -/
 theorem rewrite_ignored_counter :
-    get (run id (Dir.create .w fasta) [.write idA 1, .write idA 2]).root aFasta = some 1 ∧
+    get (run Cfg.asIs id (Dir.create .w fasta) [.write idA 1, .write idA 2]).root aFasta = some 1 ∧
     get (specRun .directory fasta (Dict.empty .w) [.write idA 1, .write idA 2]).completed aFasta = some 2 := by
   decide
 
 /-- `write_nc('a', 1); write_nc('a', 2)` in APPEND mode overwrites the record (listed once since 0dec94369) -/
 theorem append_overwrites_not_completed_counter :
-    let s := run id (Dir.create .a fasta) [.writeNc idA 1, .writeNc idA 2]
+    let s := run Cfg.asIs id (Dir.create .a fasta) [.writeNc idA 1, .writeNc idA 2]
     s.ncCache = [aJson] ∧ get s.nc aJson = some 2 ∧
     get (specRun .directory fasta (Dict.empty .a) [.writeNc idA 1, .writeNc idA 2]).notCompleted aJson = some 1 := by
   decide
 
 /-- the same two writes in OVERWRITE mode: the record is replaced and listed once, as in the dictionary -/
 theorem not_completed_rewrite_listed_once :
-    let s := run id (Dir.create .w fasta) [.writeNc idA 1, .writeNc idA 2]
+    let s := run Cfg.asIs id (Dir.create .w fasta) [.writeNc idA 1, .writeNc idA 2]
     s.ncCache = [aJson] ∧ get s.nc aJson = some 2 ∧
     get (specRun .directory fasta (Dict.empty .w) [.writeNc idA 1, .writeNc idA 2]).notCompleted aJson = some 2 := by
   decide
 
 /-- since fce82c149 a read-only store refuses `drop_not_completed` -/
 theorem readonly_drop_refused :
-    keys (run id (Dir.create .w fasta) [.writeNc idA (1 : Nat), .reopen .r, .drop []]).nc = [aJson] ∧
-    (step id (run id (Dir.create .w fasta) [.writeNc idA (1 : Nat), .reopen .r]) (.drop [])).2 = .err .ioError := by
+    keys (run Cfg.asIs id (Dir.create .w fasta) [.writeNc idA (1 : Nat), .reopen .r, .drop []]).nc = [aJson] ∧
+    (step Cfg.asIs id (run Cfg.asIs id (Dir.create .w fasta) [.writeNc idA (1 : Nat), .reopen .r]) (.drop [])).2 = .err .ioError := by
   decide
 
 /-- an identifier containing the suffix: `write_nc('sofasta.fasta')` is stored as `sojson.json`
     with its md5 under `sotxt.txt` -/
 theorem suffix_substring_counter :
-    let s := run id (Dir.create .w fasta) [.writeNc ['s','o','f','a','s','t','a','.','f','a','s','t','a'] 1]
+    let s := run Cfg.asIs id (Dir.create .w fasta) [.writeNc ['s','o','f','a','s','t','a','.','f','a','s','t','a'] 1]
     keys s.nc = [['s','o','j','s','o','n','.','j','s','o','n']] ∧
     keys s.md5 = [['s','o','t','x','t','.','t','x','t']] ∧
     hygId fasta ['s','o','f','a','s','t','a','.','f','a','s','t','a'] = false := by decide
@@ -125,19 +145,24 @@ theorem suffix_substring_counter :
 
 /-- closing and re-opening in any mode shows the same records (same statement as
     `store_refines_dict_partial` for the history followed by a re-open). -/
-theorem reopened_store_refines_dict_partial (H : D → D) (sfx : Str) (ids : List Str) (mode m : Mode)
+theorem reopened_store_refines_dict_partial (cfg : Cfg) (H : D → D) (sfx : Str) (ids : List Str) (mode m : Mode)
     (ops : List (Op D)) (hy : hyg sfx ids = true)
     (hs : safeHist sfx ids (Dict.empty mode) ops = true) :
-    let s := populate (run H (Dir.create mode sfx) (ops ++ [.reopen m]))
+    let s := populate (run cfg H (Dir.create mode sfx) (ops ++ [.reopen m]))
     let d := specRun .directory sfx (Dict.empty mode) ops
+    let lost := lostRun sfx (Dict.empty mode) [] ops
     s.cCache.Nodup ∧ (∀ n, n ∈ s.cCache ↔ n ∈ keys d.completed) ∧
     s.ncCache.Nodup ∧ (∀ n, n ∈ s.ncCache ↔ n ∈ keys d.notCompleted) ∧
-    (∀ n, get s.root n = get d.completed n) ∧ (∀ n, get s.nc n = get d.notCompleted n) := by
-  have h := store_refines_dict_partial H sfx ids mode (ops ++ [.reopen m]) hy
+    (∀ n, get s.root n = get d.completed n) ∧ (∀ n, get s.nc n = get d.notCompleted n) ∧
+    obsLogs s = d.logs ∧
+    (∀ n v, get d.notCompleted n = some v → get s.md5 (md5Lookup s.sfx n) = some (H v)) ∧
+    (∀ n v, get d.completed n = some v →
+      get s.md5 (md5Lookup s.sfx n) = if n ∈ lost then none else some (H v)) := by
+  have h := store_refines_dict_partial cfg H sfx ids mode (ops ++ [.reopen m]) hy
     (by rw [safeHist_append_reopen]; exact hs)
-  obtain ⟨e1, e2⟩ := specRun_append_reopen sfx m ops (Dict.empty mode)
-  simp only [e1, e2] at h
-  exact ⟨h.1, h.2.1, h.2.2.1, h.2.2.2.1, h.2.2.2.2.1, h.2.2.2.2.2.1⟩
+  obtain ⟨e1, e2, e3⟩ := specRun_append_reopen sfx m ops (Dict.empty mode)
+  simp only [e1, e2, e3, lostRun_append_reopen] at h
+  exact h
 
 example : safeHist fasta [idA, idBA, idAfasta] (Dict.empty .w) (witness ++ [.reopen .r]) = true := by decide
 
@@ -181,14 +206,20 @@ theorem spec_op_local (sfx : Str) (d : Dict D) (op : Op D) (i : Str) (hi : opId 
 related to a dictionary state by the simulation (so: after any safe history), a safe operation
 naming `i` leaves the content of every file other than `i`'s completed and not-completed record
 unchanged — in the store itself, not only in the dictionary. -/
-theorem op_on_id_is_local_partial (H : D → D) (sfx : Str) (ids : List Str) (s : Dir D) (d : Dict D)
-    (hy : hyg sfx ids = true) (h : Sim H sfx ids s d) (op : Op D) (hs : safe sfx ids d op = true)
+theorem op_on_id_is_local_partial (cfg : Cfg) (H : D → D) (sfx : Str) (ids lost : List Str) (s : Dir D) (d : Dict D)
+    (hy : hyg sfx ids = true) (h : Sim H sfx ids lost s d) (op : Op D) (hs : safe sfx ids d op = true)
     (i : Str) (hi : opId op = some i) (n : Str) (hc : n ≠ cN sfx i) (hn : n ≠ ncN i) :
-    get (step H s op).1.root n = get s.root n ∧ get (step H s op).1.nc n = get s.nc n := by
-  have h' := step_sim hy h op hs
+    get (step cfg H s op).1.root n = get s.root n ∧ get (step cfg H s op).1.nc n = get s.nc n ∧
+    (step cfg H s op).1.logs = s.logs := by
+  have h' := (step_sim (cfg := cfg) hy h op hs).1
+  have hl : (specStep .directory sfx d op).logs = d.logs := by
+    unfold specStep; split
+    · rfl
+    · cases op <;> simp_all [DataStoreDict.apply, opId]
+      split <;> rfl
   obtain ⟨e1, e2⟩ := spec_op_local sfx d op i hi n hc hn
-  rw [h'.root, h'.nc, h.root, h.nc]
-  exact ⟨e1, e2⟩
+  rw [h'.root, h'.nc, h'.logs, h.root, h.nc, h.logs]
+  exact ⟨e1, e2, hl⟩
 
 /- FULL STATEMENT (not proved): `op_on_id_is_local` without `hyg`/`safe`/`Sim` — false for the code
    as it is: `suffix_substring_counter` (identifiers containing the suffix collide: `fasta_x` and
@@ -258,12 +289,12 @@ theorem spec_append_never_overwrites (sfx : Str) (d : Dict D) (op : Op D) (hm : 
 /-- **Append mode never overwrites (partial).**  In append mode a safe operation leaves every
 stored completed file's content unchanged and every not-completed file unchanged or removed —
 in the store itself. -/
-theorem append_never_overwrites_partial (H : D → D) (sfx : Str) (ids : List Str) (s : Dir D) (d : Dict D)
-    (hy : hyg sfx ids = true) (h : Sim H sfx ids s d) (op : Op D) (hs : safe sfx ids d op = true)
+theorem append_never_overwrites_partial (cfg : Cfg) (H : D → D) (sfx : Str) (ids lost : List Str) (s : Dir D) (d : Dict D)
+    (hy : hyg sfx ids = true) (h : Sim H sfx ids lost s d) (op : Op D) (hs : safe sfx ids d op = true)
     (hm : s.mode = .a) (hop : ∀ m, op ≠ .reopen m) (n : Str) (v : D) :
-    (get s.root n = some v → get (step H s op).1.root n = some v) ∧
-    (get s.nc n = some v → get (step H s op).1.nc n = some v ∨ get (step H s op).1.nc n = none) := by
-  have h' := step_sim hy h op hs
+    (get s.root n = some v → get (step cfg H s op).1.root n = some v) ∧
+    (get s.nc n = some v → get (step cfg H s op).1.nc n = some v ∨ get (step cfg H s op).1.nc n = none) := by
+  have h' := (step_sim (cfg := cfg) hy h op hs).1
   rw [h'.root, h'.nc, h.root, h.nc]
   exact spec_append_never_overwrites sfx d op (h.hmode ▸ hm) hop n v
 
@@ -278,21 +309,66 @@ example : (Dict.empty .a : Dict Nat).mode = .a ∧ safe fasta [idA] (Dict.empty 
 /-- the files of the store: completed, not-completed, logs, md5 -/
 def files (s : Dir D) : KV D × KV D × KV D × KV D := (s.root, s.nc, s.logs, s.md5)
 
-/-- **Read-only mode never mutates.**  NO operation on a read-only store changes any file, for
-every identifier and every state (no hygiene or history hypothesis) — full strength since
-fce82c149. -/
-theorem readonly_never_mutates (H : D → D) (s : Dir D) (op : Op D) (hm : s.mode = .r) :
-    files (step H s op).1 = files s := by
+/-- which of the sub-directories `not_completed/`, `logs/` exist -/
+def dirs (s : Dir D) : Bool × Bool := (s.ncDir, s.logsDir)
+
+/-- **Read-only mode never mutates (files).**  NO operation on a read-only store changes any file,
+for every identifier and every state (no hygiene or history hypothesis), for the code as it is. -/
+theorem readonly_never_mutates (cfg : Cfg) (H : D → D) (s : Dir D) (op : Op D) (hm : s.mode = .r) :
+    files (step cfg H s op).1 = files s := by
   cases op with
   | write i data => simp [step, write, writeCore, hm, files]
-  | writeNc i data => simp [step, writeNc, writeCore, hm, files]
-  | writeLog i data => simp [step, writeLog, writeCore, hm, files]
+  | writeNc i data =>
+    simp only [step, writeNc]
+    by_cases hc : (cfg.roWriteNoMkdir && decide (s.mode = .r)) = true
+    · rw [if_pos hc]; rw [writeCore_ro hm]
+    · rw [if_neg hc]; rw [writeCore_ro (s := { s with ncDir := true }) hm]; rfl
+  | writeLog i data =>
+    simp only [step, writeLog]
+    by_cases hc : (cfg.roWriteNoMkdir && decide (s.mode = .r)) = true
+    · rw [if_pos hc]; rw [writeCore_ro hm]
+    · rw [if_neg hc]; rw [writeCore_ro (s := { s with logsDir := true }) hm]; rfl
   | drop i => simp [step, dropNc, hm, files]
   | reopen m => simp [step, reopen, files]
   | observe => simp [step, populate, files]
   | unlock => simp [step, files]
 
-example : (reopen (run id (Dir.create .w fasta) [.writeNc idA (1 : Nat)]) .r).mode = .r := by decide
+/-- **Read-only mode never mutates (files AND directories).**  With the proposed repair
+(`Cfg.repaired`: the constructor and `write_not_completed` / `write_log` create no directory on a
+read-only store), no operation on a read-only store — including closing and re-opening it
+read-only — changes any file or creates / removes any sub-directory. -/
+theorem readonly_never_mutates_dirs (H : D → D) (s : Dir D) (op : Op D) (hm : s.mode = .r)
+    (hop : ∀ m, op = .reopen m → m = .r) :
+    files (step Cfg.repaired H s op).1 = files s ∧ dirs (step Cfg.repaired H s op).1 = dirs s := by
+  refine ⟨readonly_never_mutates _ H s op hm, ?_⟩
+  cases op with
+  | write i data => simp [step, write, writeCore, hm, dirs]
+  | writeNc i data => simp [step, writeNc, writeCore, hm, dirs, Cfg.repaired]
+  | writeLog i data => simp [step, writeLog, writeCore, hm, dirs, Cfg.repaired]
+  | drop i => simp [step, dropNc, hm, dirs]
+  | reopen m =>
+    have := hop m rfl
+    subst this
+    simp [step, reopen, dirs, Cfg.repaired]
+  | observe => simp [step, populate, dirs]
+  | unlock => simp [step, dirs]
+
+/- FULL STATEMENT (not proved): `readonly_never_mutates_dirs` for `Cfg.asIs` — false:
+   `readonly_creates_directory_counter` (the constructor with `mode="r"` and
+   `write_not_completed` on a read-only store create `not_completed/`). -/
+
+/-- code as it is: re-opening read-only (mode given as the string "r") after `drop_not_completed()`
+    re-creates `not_completed/`; so does `write_not_completed` on a read-only store that lacks it
+    (it raises `IOError` only after the `mkdir`) -/
+theorem readonly_creates_directory_counter :
+    let s0 : Dir Nat := run Cfg.asIs id (Dir.create .w fasta) [.writeNc idA 1, .drop []]
+    s0.ncDir = false ∧ (step Cfg.asIs id s0 (.reopen .r)).1.ncDir = true ∧
+    (step Cfg.repaired id s0 (.reopen .r)).1.ncDir = false ∧
+    (let s : Dir Nat := { (Dir.create .r fasta : Dir Nat) with ncDir := false }
+     (step Cfg.asIs id s (.writeNc idA 1)).2 = .err .ioError ∧ (step Cfg.asIs id s (.writeNc idA 1)).1.ncDir = true ∧
+     (step Cfg.repaired id s (.writeNc idA 1)).1.ncDir = false) := by decide
+
+example : (reopen Cfg.asIs (run Cfg.asIs id (Dir.create .w fasta) [.writeNc idA (1 : Nat)]) .r).mode = .r := by decide
 
 /-! ## the abstract file system keeps one entry per path -/
 
@@ -352,30 +428,20 @@ example : (DataStoreSqlite.reopen (DataStoreSqlite.run id (DataStoreSqlite.Sql.c
     inhabited by a non-trivial state: the store after the witness history (two not-completed records
     with suffix-related names written, one retired by a completed write), with a further safe
     operation naming `ba` -/
-example : Sim (id : Nat → Nat) fasta [idA, idBA, idAfasta] (run id (Dir.create .w fasta) witness)
-      (specRun .directory fasta (Dict.empty .w) witness) ∧
+example : Sim (id : Nat → Nat) fasta [idA, idBA, idAfasta] (lostRun fasta (Dict.empty .w) [] witness)
+      (run Cfg.asIs id (Dir.create .w fasta) witness) (specRun .directory fasta (Dict.empty .w) witness) ∧
     safe fasta [idA, idBA, idAfasta] (specRun .directory fasta (Dict.empty .w) witness) (.write idBA (7 : Nat)) = true ∧
     opId (.write idBA 7 : Op Nat) = some idBA ∧ aFasta ≠ cN fasta idBA ∧ aFasta ≠ ncN idBA :=
-  ⟨run_sim (by decide) witness _ _ (sim_create .w) (by decide), by decide, by decide, by decide, by decide⟩
+  ⟨run_sim (by decide) witness _ _ _ (sim_create .w) (by decide), by decide, by decide, by decide, by decide⟩
 
 /-- … and in APPEND mode with stored records of both kinds (`append_never_overwrites_partial`) -/
-example : Sim (id : Nat → Nat) fasta [idA, idBA, idAfasta] (run id (Dir.create .a fasta) witness)
-      (specRun .directory fasta (Dict.empty .a) witness) ∧
-    (run id (Dir.create .a fasta) witness : Dir Nat).mode = .a ∧
-    get (run id (Dir.create .a fasta) witness : Dir Nat).root aFasta = some 3 ∧
-    get (run id (Dir.create .a fasta) witness : Dir Nat).nc baJson = some 1 ∧
+example : Sim (id : Nat → Nat) fasta [idA, idBA, idAfasta] (lostRun fasta (Dict.empty .a) [] witness)
+      (run Cfg.asIs id (Dir.create .a fasta) witness) (specRun .directory fasta (Dict.empty .a) witness) ∧
+    (run Cfg.asIs id (Dir.create .a fasta) witness : Dir Nat).mode = .a ∧
+    get (run Cfg.asIs id (Dir.create .a fasta) witness : Dir Nat).root aFasta = some 3 ∧
+    get (run Cfg.asIs id (Dir.create .a fasta) witness : Dir Nat).nc baJson = some 1 ∧
     safe fasta [idA, idBA, idAfasta] (specRun .directory fasta (Dict.empty .a) witness) (.write idBA (7 : Nat)) = true :=
-  ⟨run_sim (by decide) witness _ _ (sim_create .a) (by decide), by decide, by decide, by decide, by decide⟩
-
-/-- `files` in `readonly_never_mutates` are the four file tables; the EXISTENCE of the
-`not_completed` sub-directory (`ncDir`) is not among them, and it does change on a read-only store:
-`write_not_completed` runs `mkdir(parents=True, exist_ok=True)` BEFORE `_check_writable` raises.
-(Replayed on the real class: `DataStoreDirectory(p, mode=Mode.r).write_not_completed(...)` raises
-`IOError` and leaves a new empty `not_completed/` directory; `write_log` does the same for `logs/`.) -/
-theorem readonly_write_nc_creates_dir_counter :
-    let s : Dir Nat := { (Dir.create .r fasta : Dir Nat) with ncDir := false }
-    s.mode = .r ∧ (step id s (.writeNc idA 1)).2 = .err .ioError ∧
-    s.ncDir = false ∧ (step id s (.writeNc idA 1)).1.ncDir = true := by decide
+  ⟨run_sim (by decide) witness _ _ _ (sim_create .a) (by decide), by decide, by decide, by decide, by decide⟩
 
 open CogentModel.DataStoreSqlite in
 /-- stronger form of `sqlite_readonly_never_mutates`: every PERSISTENT component of the database —
